@@ -271,6 +271,7 @@ func RunScope(c SCase) error {
 	var options func() json.Options
 	var resetEnc func(w *bytes.Buffer, self json.Options, extra []json.Options)
 	var callA, callC, callB func() error
+	var unwind func() bool // marshal: close what a failed call left open; false if the encoder refuses
 	var checkA, checkC func(err error) error
 	var buf bytes.Buffer
 	var dec *jsontext.Decoder
@@ -281,6 +282,34 @@ func RunScope(c SCase) error {
 			return fmt.Errorf("NewEncoder panicked: %v", p)
 		}
 		options = enc.Options
+		unwind = func() bool {
+			ok := true
+			if p := rt.Guard(func() {
+				for steps := 0; enc.StackDepth() > 0 && steps < 64; steps++ {
+					kind, n := enc.StackIndex(enc.StackDepth())
+					var err error
+					if kind == '{' {
+						if n%2 == 1 {
+							if err = enc.WriteToken(jsontext.Null); err != nil {
+								ok = false
+								return
+							}
+						}
+						err = enc.WriteToken(jsontext.EndObject)
+					} else {
+						err = enc.WriteToken(jsontext.EndArray)
+					}
+					if err != nil {
+						ok = false
+						return
+					}
+				}
+				ok = ok && enc.StackDepth() == 0
+			}); p != nil {
+				return false
+			}
+			return ok
+		}
 		resetEnc = func(w *bytes.Buffer, self json.Options, extra []json.Options) {
 			enc.Reset(w, append([]json.Options{self}, extra...)...)
 		}
@@ -391,6 +420,23 @@ func RunScope(c SCase) error {
 		// the coder may now be in a failed state: only the options are
 		// looked at from here on
 		rec.Class("scope:plain-call-with-options:error")
+		// ... unless the caller can complete the output by hand (possible
+		// where duplicate names are allowed: the failed call leaves the name
+		// tracking of the open objects unusable otherwise). The coder then
+		// behaves under its own options again, as the statement says.
+		if unwind != nil && mBase["jsontext.AllowDuplicateNames"].B && !hasWS(mExtra) && unwind() {
+			rec.Class("scope:failed-call-unwound-by-hand")
+			if err := same("after a failed call was completed by hand"); err != nil {
+				return err
+			}
+			var errC error
+			if p := rt.Guard(func() { errC = callC() }); p != nil {
+				return knownPanic(p, mBase, shapeHasInterface(c.Val.Shape), "call without options after a failed call")
+			}
+			if err := checkC(errC); err != nil {
+				return ctx(fmt.Errorf("after a failed call (completed by hand): %v", err))
+			}
+		}
 	}
 
 	// call B: user code
